@@ -87,7 +87,7 @@ impl Default for Limits {
             max_depth: None,
             max_states: 50_000_000,
             max_wall_s: 3600.0,
-            max_rss_mb: 40_000,
+            max_rss_mb: 20_000,
             max_violations: 400,
         }
     }
@@ -135,6 +135,9 @@ pub fn explore<S: System>(sys: &S, lim: &Limits) -> Explored<S::Op> {
         next: root.next,
     }];
     let mut depth = 0usize;
+    // once a violation has been found the exploration goes on for a grace period only (a defect
+    // can make the reachable graph unbounded; everything found until then is reported)
+    let mut first_violation: Option<Instant> = None;
     loop {
         if frontier.is_empty() {
             ex.fixed_point = true;
@@ -166,7 +169,18 @@ pub fn explore<S: System>(sys: &S, lim: &Limits) -> Explored<S::Op> {
         }
         let mut children: Vec<Child<S::Op>> = Vec::new();
         let mut viols: Vec<Violation<S::Op>> = Vec::new();
+        let mut cut_short = false;
         for chunk in frontier.chunks(8192) {
+            // an implementation defect can make the reachable graph unbounded: the caps also
+            // apply inside a level (what was found so far is still reported)
+            let grace_over = first_violation.map(|t: Instant| t.elapsed().as_secs_f64() > (lim.max_wall_s * 0.15).max(15.0)).unwrap_or(false);
+            if !viols.is_empty() && first_violation.is_none() {
+                first_violation = Some(Instant::now());
+            }
+            if grace_over || crate::util::rss_mb() > lim.max_rss_mb || t0.elapsed().as_secs_f64() > lim.max_wall_s * 1.5 {
+                cut_short = true;
+                break;
+            }
             let outs = par_map(chunk, |node| {
                 let mut kids = Vec::with_capacity(node.next.len());
                 let mut vs = Vec::new();
@@ -208,6 +222,16 @@ pub fn explore<S: System>(sys: &S, lim: &Limits) -> Explored<S::Op> {
                     }
                 }
             }
+        }
+        if cut_short {
+            ex.capped = Some(format!("stopped inside level {}: RSS cap {} MB, wall cap, or the grace period after the first violation", depth + 1, lim.max_rss_mb));
+            viols.sort_by(|a, b| a.ops.len().cmp(&b.ops.len()).then_with(|| a.ops.cmp(&b.ops)));
+            for v in viols {
+                if ex.violations.len() < lim.max_violations {
+                    ex.violations.push(v);
+                }
+            }
+            break;
         }
         depth += 1;
         // Deterministic de-duplication: smallest history per key wins.
